@@ -151,6 +151,24 @@ def r3(R):
                         'is not detected' % ast.unparse(op.ast)[:60])
 
 
+def _consults_changes_capability(ds, e, depth=0):
+    """the expression asks <Interface>.providedBy(self.changes), directly or
+    through a helper method of the class"""
+    for x in ast.walk(e):
+        if isinstance(x, ast.Call) and isinstance(
+                x.func, ast.Attribute) and x.func.attr == 'providedBy' \
+                and any(dotted(a) == ('self', 'changes') for a in x.args):
+            return True
+        if depth < 2 and isinstance(x, ast.Call) and isinstance(
+                x.func, ast.Attribute) and isinstance(
+                    x.func.value, ast.Name) and \
+                x.func.value.id == 'self' and x.func.attr in ds.methods:
+            if any(_consults_changes_capability(ds, s_, depth + 1)
+                   for s_ in ds.methods[x.func.attr].node.body):
+                return True
+    return False
+
+
 @rule('C16.R5', 'loadBefore asks the base only after the changes storage '
       'had no answer; loadSerial answers with exactly the requested '
       'revision', props=['C04', 'C10', 'C15'], min_instances=1)
@@ -179,6 +197,11 @@ def r5(R):
                 if op.kind == 'call' and path_is(
                         op.path, ('self', 'changes', meth)):
                     return 'miss' if lab == 'e' else 'asked'
+            # a changes storage that cannot hold the thing asked for (a
+            # blob) is not asked: established by a test of what it provides
+            if node.kind == 'test' and st == 'none' and \
+                    _consults_changes_capability(cls, node.ast):
+                return 'capability-tested'
             return st
 
         def at(node, st, F=F, meth=meth, f_params=f_params):
@@ -657,3 +680,50 @@ def r12(R):
               'base\'s answer')
     for v in vs:
         R.violation(v.node, v.message, g, v.path)
+
+
+# ----------------------------------------------------------------- C16.R13
+@rule('C16.R13', 'blob reads go changes-over-base whatever the changes '
+      'storage is: before a blob is asked of the changes storage it is '
+      'established that this storage can hold blobs at all (one that was '
+      'supplied without blob support answers with AttributeError / '
+      'TypeError, not with "not here")', min_instances=2)
+def r13(R):
+    ds = R.prog.cls(DS)
+
+    def consults(e):
+        return _consults_changes_capability(ds, e)
+
+    n = 0
+    for meth in ('loadBlob', 'openCommittedBlobFile'):
+        f = R.method(ds, meth)
+        g, b, F = R.cfg(f, ds, max_depth=0)
+        n += 1
+        R.instance('DemoStorage.%s' % meth)
+
+        def edge(node, st, lab, tgt):
+            if node.kind == 'test' and consults(node.ast):
+                return True
+            return st
+
+        def at(node, st, meth=meth, F=F):
+            for op in F.ops(node):
+                if op.kind == 'call' and path_is(
+                        op.path, ('self', 'changes', meth)) and not st:
+                    return Violation(
+                        'DemoStorage.%s asks the changes storage for a blob '
+                        'without having established that it can hold blobs: '
+                        'a changes storage supplied without blob support '
+                        '(MappingStorage, FileStorage without blob_dir) '
+                        'answers with AttributeError / TypeError, which is '
+                        'passed on -- the blobs of the base cannot be read '
+                        'through the demo storage' % meth)
+            return st
+
+        vs, stats = explore(g, False, at=at, edge=edge)
+        R.count(stats)
+        for v in vs[:1]:
+            R.violation(v.node, v.message, g, v.path,
+                        key='changes storage asked for a blob it cannot '
+                            'hold')
+    R.require(n >= 2, 'blob readers of DemoStorage not found')
